@@ -220,7 +220,7 @@ package vm
 //@   invariant wf-parent [C07]: wfParent(c)
 //@   invariant wf-cursor [C07]: wfCursor(c)
 //@   ensures count [C07]: c.count == old(c.count) + 1
-//@   ensures pushed [C03 C07 C08]: c.current != nil && fresh(c.current) && c.current == c.lookup[old(c.count)] && c.current.Index == old(c.count) && c.current.Parent == old(c.current)
+//@   ensures pushed [C03 C07 C08 C10]: c.current != nil && fresh(c.current) && c.current == c.lookup[old(c.count)] && c.current.Index == old(c.count) && c.current.Parent == old(c.current)
 //@   ensures recorded [C08]: c.current.From == from && c.current.To == to && sameslice(c.current.Data, data) && c.current.Value == value && c.current.Gas == gas && c.current.Ret == nil && c.current.Err == nil && len(c.current.Children) == 0
 //@   ensures appended [C07 C08]: old(c.current) != nil ==> len(old(c.current).Children) == old(len(c.current.Children)) + 1 && old(c.current).Children[old(len(c.current.Children))] == c.current
 //@   modifies vm.CallTree.root, vm.CallTree.current, vm.CallTree.count, map:map[uint64]*vm.Call, vm.Call.Children, cell:*vm.Call
@@ -234,7 +234,7 @@ package vm
 //@   invariant wf-dense [C07]: wfDense(c)
 //@   invariant wf-parent [C07]: wfParent(c)
 //@   invariant wf-cursor [C07]: wfCursor(c)
-//@   ensures popped [C03 C07]: (old(c.current) == nil ==> c.current == nil) && (old(c.current) != nil ==> c.current == old(c.current.Parent))
+//@   ensures popped [C03 C07 C10]: (old(c.current) == nil ==> c.current == nil) && (old(c.current) != nil ==> c.current == old(c.current.Parent))
 //@   ensures outcome [C08]: old(c.current) != nil ==> old(c.current).RemainingGas == leftoverGas && sameslice(old(c.current).Ret, ret) && old(c.current).Err == err
 //@   ensures count [C07]: c.count == old(c.count)
 //@   modifies vm.CallTree.current, vm.Call.RemainingGas, vm.Call.Ret, vm.Call.Err
